@@ -190,11 +190,11 @@ Lemma step_conforms g s m ev :
   exists m', mon_step fs fp m ev (snd (lstep vv g s ev)) = Some m' /\ coupled (fst (lstep vv g s ev)) m'.
 Proof.
   intros C Hw. unfold coupled in C.
-  destruct s as [ib ca d]. cbn [cache db inb] in C.
+  destruct s as [ib ca d oo]. cbn [cache db inb] in C.
   destruct ca as [e|].
   - destruct C as (Ho & Ha & Hp & Hi & Hs & Hd). subst ib.
     destruct m as [mo mp mq ma ms]. cbn [m_open m_ack m_pend m_pers m_sent] in *. subst mo ma mq.
-    destruct ev as [i h|i h|sn|sn ok| | |past]; cbn [lstep lstep_wraps cache inb db] in *.
+    destruct ev as [i h|i h|sn|sn ok| |lk| |past]; cbn [lstep lstep_wraps cache inb db] in *.
     + (* Active *)
       destruct (pending e) eqn:P; cbn [negb fix_active V fst snd mon_step m_open].
       * eexists; split; [reflexivity|]. unfold coupled, confirm; cbn. destruct d; fin.
@@ -227,6 +227,9 @@ Proof.
       assert (EF : fs = true \/ fs = false) by (clear; destruct fs; auto).
       destruct EF as [EF|EF]; rewrite EF in *; (eexists; split; [reflexivity|]);
         unfold coupled, floor; rewrite ?EF; cbn; try rewrite (Hs eq_refl); destruct d; fin.
+    + (* late response for the detached object of an earlier release: with fix_ghost no checkpoint is written *)
+      cbn [orph]. destruct oo; cbn [fix_ghost V fst snd mon_step];
+        (eexists; split; [reflexivity|]); unfold coupled; cbn; destruct d; fin.
     + (* Restart *)
       cbn [fst snd mon_step m_open andb]. destruct d as [dd|]; cbn in Hd.
       * destruct Hd as (Hd1 & Hd2 & Hd3). subst mp. eexists; split; [reflexivity|].
@@ -242,7 +245,8 @@ Proof.
       * rewrite GF. eexists; split; [reflexivity|]. unfold coupled; cbn; auto.
       * eexists; split; [reflexivity|]. unfold coupled; cbn; auto.
   - destruct C as (Hd & Hi & Hm). subst d ib m.
-    destruct ev as [i h|i h|sn|sn ok| | |past]; cbn [lstep lstep_wraps cache inb db fst snd mon_step m_open mst0 fix_stop V andb];
+    destruct ev as [i h|i h|sn|sn ok| |lk| |past]; cbn [lstep lstep_wraps cache inb db orph fst snd mon_step m_open mst0 fix_stop fix_ghost V andb];
+      try destruct oo; cbn [fst snd mon_step fix_ghost V];
       eexists; (split; [reflexivity|]); unfold coupled; cbn; repeat split; auto; discriminate.
 Qed.
 
@@ -299,7 +303,7 @@ Ltac mon_start t IH M NP Hi St :=
   cbn [map fst no_prune never_restored forallb] in NP;
   unfold outputs in *; cbn [flat_map snd];
   destruct m as [mo mp mq ma ms];
-  destruct ev as [i h|i h|sn|sn ok| | |past]; cbn [mon_step m_open m_pers m_pend m_ack m_sent] in St;
+  destruct ev as [i h|i h|sn|sn ok| |lk| |past]; cbn [mon_step m_open m_pers m_pend m_ack m_sent] in St;
   break_if St; inversion St; subst; clear St.
 
 Ltac no_prune_case :=
@@ -327,7 +331,7 @@ Proof.
   induction t as [|[ev o] r IH]; intros m m' x HM _ Hi; [reflexivity|].
   cbn [mon_run] in HM. destruct (mon_step _ _ m ev o) as [m1|] eqn:St; [|discriminate].
   cbn [stops_ok]. destruct m as [mo mp mq ma ms].
-  destruct ev as [i h|i h|sn|sn ok| | |past]; cbn [mon_step m_open m_pers m_pend m_ack m_sent] in St;
+  destruct ev as [i h|i h|sn|sn ok| |lk| |past]; cbn [mon_step m_open m_pers m_pend m_ack m_sent] in St;
   break_if St; inversion St; subst; clear St; norm_hyps; subst; cbn [filter length Nat.eqb Nat.leb andb];
   try (destruct x; [|specialize (Hi eq_refl); discriminate]); cbn [Nat.leb Nat.eqb andb];
   try (destruct x; cbn [Nat.leb Nat.eqb andb]);
@@ -398,7 +402,7 @@ Proof.
   apply andb_true_iff in NPa as [NP1 NPa]. apply andb_true_iff in NPb as [NR1 NPb].
   unfold outputs in *. cbn [flat_map snd]. destruct m as [mo mp mq ma ms].
   destruct Hi as [Hi1 Hi2]. cbn [m_open m_pers m_pend] in Hi1, Hi2. subst x.
-  destruct ev as [i h|i h|sn|sn ok| | |past]; cbn [mon_step m_open m_pers m_pend m_ack m_sent] in St;
+  destruct ev as [i h|i h|sn|sn ok| |lk| |past]; cbn [mon_step m_open m_pers m_pend m_ack m_sent] in St;
   try discriminate; break_if St; inversion St; subst; clear St; no_prune_case; norm_hyps;
   try (specialize (Hi2 eq_refl)); subst;
   cbn [app strict andb];
@@ -415,7 +419,7 @@ Ltac mon_start0 t IH M Hi St :=
   cbn [mon_run] in M; destruct (mon_step _ _ m ev o) as [m1|] eqn:St; [|discriminate];
   unfold outputs in *; cbn [flat_map snd];
   destruct m as [mo mp mq ma ms];
-  destruct ev as [i h|i h|sn|sn ok| | |past]; cbn [mon_step m_open m_pers m_pend m_ack m_sent] in St;
+  destruct ev as [i h|i h|sn|sn ok| |lk| |past]; cbn [mon_step m_open m_pers m_pend m_ack m_sent] in St;
   break_if St; inversion St; subst; clear St.
 
 Lemma mon_bracketed_p fs t : forall m m' inside,
@@ -467,7 +471,7 @@ Proof.
   { destruct NPo as [A|A]; [left; exact A|right]. cbn [map fst no_prune forallb] in A.
     apply andb_true_iff in A as [A _]. exact A. }
   cbn [strictT]. destruct m as [mo mp mq ma ms].
-  destruct ev as [i h|i h|sn|sn ok| | |past]; cbn [mon_step m_open m_pers m_pend m_ack m_sent] in St;
+  destruct ev as [i h|i h|sn|sn ok| |lk| |past]; cbn [mon_step m_open m_pers m_pend m_ack m_sent] in St;
   break_if St; inversion St; subst; clear St;
   destruct b; cbn [strict_inv m_open m_pers] in Hi;
   repeat match goal with x : bool |- _ => destruct x end;
@@ -572,13 +576,14 @@ Qed.
 Lemma lstep_interims_acked v g s ev :
   match ev with ETick _ false => False | _ => True end -> interims_acked (snd (lstep v g s ev)) = true.
 Proof.
-  destruct ev as [i h|i h|sn|sn ok| | |past]; intros H; cbn [lstep].
+  destruct ev as [i h|i h|sn|sn ok| |lk| |past]; intros H; cbn [lstep].
   - destruct (inb s); [reflexivity|]. destruct (cache s); [destruct (fix_active v)|]; reflexivity.
   - destruct (cache s); reflexivity.
   - destruct (cache s); [reflexivity|]. destruct (fix_stop v); reflexivity.
   - destruct ok; [|contradiction]. destruct (inb s); [|reflexivity]. destruct (cache s) as [e|]; [|reflexivity].
     destruct (report v g true e sn). reflexivity.
   - destruct (cache s); reflexivity.
+  - destruct (orph s); [destruct (fix_ghost v)|]; reflexivity.
   - reflexivity.
   - destruct (cache s) as [e|]; [|reflexivity]. destruct (pending e && past); [destruct (fix_prune v)|]; reflexivity.
 Qed.
@@ -595,7 +600,7 @@ Proof.
   destruct (lstep v g s ev) as [s1 o]. specialize (IH s1 H2).
   destruct (lrun v g s1 r) as [s2 t]. unfold outputs in *. cbn [snd flat_map] in *.
   rewrite interims_acked_app, IH, andb_true_r. apply L.
-  destruct ev as [| | |sn ok| | |]; auto. destruct ok; [auto|discriminate].
+  destruct ev as [| | |sn ok| | | |]; auto. destruct ok; [auto|discriminate].
 Qed.
 
 Lemma monotone_sent_if_acked fs fo fl fp g evs :
@@ -759,7 +764,7 @@ Qed.
 
 Lemma after_release_silent fs fo fl fp g s sn sn' :
   let s' := fst (lstep (V fs fo fl fp) g s (EReleased sn)) in
-  s' = sst0 /\ snd (lstep (V fs fo fl fp) g s' (EReleased sn')) = [].
+  inb s' = false /\ cache s' = None /\ db s' = None /\ snd (lstep (V fs fo fl fp) g s' (EReleased sn')) = [].
 Proof. cbn [lstep]. destruct (cache s); cbn; auto. Qed.
 
 Lemma restore_never_starts v g s i h : snd (lstep v g s (ERestored i h)) = [].
@@ -992,8 +997,8 @@ Proof.
   { intros i h. unfold sinv, floor, fresh. cbn [base prior last hw]. destruct (fix_sent v); repeat split; c4crush. }
   assert (CF : forall e i h, sinv v (c4_add B (ev_sum ev)) e -> sinv v (c4_add B (ev_sum ev)) (confirm e i h))
     by (intros e i h H; exact H).
-  destruct s as [ib ca d]. cbn [cache db] in *.
-  destruct ev as [i h|i h|sn|sn ok| | |past]; cbn [lstep lstep_wraps cache db inb ev_sum] in *.
+  destruct s as [ib ca d oo]. cbn [cache db] in *.
+  destruct ev as [i h|i h|sn|sn ok| |lk| |past]; cbn [lstep lstep_wraps cache db inb ev_sum] in *.
   - split; [destruct ca; reflexivity|].
     destruct ib; [split; cbn; auto|].
     destruct ca as [e|]; subst v; cbn [fix_active V fst]; split; cbn [cache db]; intros x Hx; inversion Hx; subst; auto.
@@ -1020,6 +1025,7 @@ Proof.
     assert (S' : sinv v (c4_add B c4z) (Sess (ifx e) (hfx e) (floor v e) (hw e) (base e) (prior e) (pending e))).
     { unfold sinv, floor in *. cbn [base prior last hw]. destruct (fix_sent v); repeat split; auto; c4crush. }
     split; cbn [cache db]; intros x Hx; inversion Hx; subst; exact S'.
+  - split; [destruct ca; reflexivity|]. cbn [orph]. destruct oo; subst v; cbn [fix_ghost V fst]; split; cbn [cache db]; auto.
   - split; [destruct ca; reflexivity|]. cbn [fst]. split; cbn [cache db]; [|exact Id'].
     intros x Hx. destruct d as [dd|]; [|discriminate]. inversion Hx; subst.
     specialize (Id' dd eq_refl). unfold sinv, floor in *; cbn [base prior last hw]. exact Id'.
@@ -1098,3 +1104,24 @@ Lemma monotone_on_wire fs fo fl fp g evs :
   forallb (fun o => wire_range (counters_of o)) (outputs (snd (lrun (V fs fo fl fp) g sst0 evs))) = true ->
   nondecreasing c4z (map through_wire (outputs (snd (lrun (V fs fo fl fp) g sst0 evs)))) = true.
 Proof. intros Hw NP R. rewrite map_through_wire by exact R. apply monotone; assumption. Qed.
+
+(* ---------- without fix_ghost: identical as long as no late response arrives for a released session ---------- *)
+Lemma lstep_no_late s o l p g st ev :
+  match ev with ELate _ => False | _ => True end ->
+  lstep (Vg s o l p) g st ev = lstep (V s o l p) g st ev /\
+  lstep_wraps (Vg s o l p) g st ev = lstep_wraps (V s o l p) g st ev.
+Proof. destruct ev; intros H; try contradiction; split; reflexivity. Qed.
+
+Lemma lrun_no_late s o l p g evs : forall st,
+  no_late evs = true ->
+  lrun (Vg s o l p) g st evs = lrun (V s o l p) g st evs /\
+  lrun_wraps (Vg s o l p) g st evs = lrun_wraps (V s o l p) g st evs.
+Proof.
+  induction evs as [|ev r IH]; intros st H; [split; reflexivity|].
+  cbn [no_late forallb] in H. apply andb_true_iff in H as [H1 H2].
+  assert (NL : match ev with ELate _ => False | _ => True end) by (destruct ev; auto; discriminate).
+  destruct (lstep_no_late s o l p g st ev NL) as [E1 E2].
+  cbn [lrun lrun_wraps]. rewrite E1, E2.
+  destruct (lstep (V s o l p) g st ev) as [s1 out]. cbn [fst].
+  destruct (IH s1 H2) as [I1 I2]. rewrite I1, I2. split; reflexivity.
+Qed.
